@@ -71,6 +71,10 @@ func (s *Sess) ListVersions(b, prefix, delim, km, vm string, maxKeys int) Versio
 		ps = append(ps, "key-marker="+queryEscape(km))
 		if vm != "" {
 			ps = append(ps, "version-id-marker="+queryEscape(vm))
+		} else if s.wireNullMarker {
+			// the id the listing shows for a version of a never-versioned (or suspended) bucket; naming it
+			// resumes after the key, exactly like naming no version
+			ps = append(ps, "version-id-marker=null")
 		}
 	} else {
 		vm = ""
@@ -193,8 +197,10 @@ func runC13(tier string, seed uint64) {
 				vm := e.ID
 				if vm == "null" {
 					vm = ""
+					s.wireNullMarker = rng.Bool()
 				}
 				s.ListVersions(b, "", "", e.Key, vm, 1+rng.Intn(3))
+				s.wireNullMarker = false
 			}
 		}
 		s.end()
